@@ -193,10 +193,10 @@ Proof.
   - destruct rm; [eapply cls_removed; eauto | subst; auto].
 Qed.
 
-Lemma reschedule_inv_pos s key np o s' :
-  PInv s -> pos_reschedule H s key np = Some (o, s') -> PInv s'.
+Lemma reschedule_reg_inv_pos s key np o s' :
+  PInv s -> pos_reschedule_reg H s key np = Some (o, s') -> PInv s'.
 Proof.
-  intros (Hi & Hf & Hc). unfold pos_reschedule.
+  intros (Hi & Hf & Hc). unfold pos_reschedule_reg.
   destruct (pq_reschedule H (pq_ s) key _) as [[o' q]|] eqn:E; [|discriminate].
   intros E'. assert (Es : s' = with_pq s q) by congruence.
   subst s'. clear E'.
@@ -206,6 +206,16 @@ Proof.
   - destruct Hq as [->|[Hp' _]]; auto.
     eapply cls_perm; [apply Permutation_sym, Hp'|].
     constructor; [right; reflexivity | apply (cls_removed _ _ _ Hp Hc)].
+Qed.
+
+Lemma reschedule_inv_pos s key np o s' :
+  PInv s -> pos_reschedule H s key np = Some (o, s') -> PInv s'.
+Proof.
+  intros HP. unfold pos_reschedule.
+  destruct (pq_find H (pq_ s) key false) as [[e q]|]; [|discriminate].
+  destruct (pclass (epri e) =? 0)%Z.
+  - intros E. injection E as _ <-. exact HP.
+  - apply reschedule_reg_inv_pos; exact HP.
 Qed.
 
 (* the re-prioritised entries handed to extend() *)
